@@ -11,7 +11,10 @@ m_ = importlib.import_module("props." + mod)
 opts = {"active": list(m_.HOUDINI["names"])} if hasattr(m_, "HOUDINI") else {}
 r = _worker(("props." + mod, unit, opts, "quick", repo, False))
 if r["error"]:
-    print("ERROR", r["error"]); sys.exit(3)
+    print("ERROR", r["error"].splitlines()[0])
+    for o in r["obligations"]:
+        print("PARTIAL REFUTATION:", o["name"], o["status"])
+    sys.exit(3)
 c = collections.OrderedDict()
 for o in r["obligations"]:
     d = c.setdefault(o["name"], collections.Counter()); d[o["status"]] += 1; d["props=" + ",".join(o["props"])] += 0
